@@ -80,6 +80,68 @@ def read_locals_driven(ctx, pid: str, comp, cls: str) -> int:
     return n
 
 
+def address_fields(ctx, pid: str, rel: str, cls: str, depth_attr: str = "depth") -> int:
+    """Every method layout field called `addr` declared in the constructor ranges over the whole depth."""
+    from ..pm import pmatch
+    from ..pyfacts import Fn
+    from ..stage import Store
+
+    fn = Fn(ctx.repo, rel, f"{cls}.__init__", pid)
+    n = 0
+    seen = set()
+    for ex in fn.exs:
+        terms = [s.value for s in ex.of(Store)] + [o.ctor for o in ex.objects.values()]
+        for t in terms:
+            for s in subterms(t):
+                if isinstance(s, tuple) and len(s) == 3 and s[0] == "tuple" and s[1] == ("c", "addr"):
+                    if s in seen:
+                        continue
+                    seen.add(s)
+                    m = pmatch("range(Q_n)", s[2])
+                    d = (ex.vardef(m["n"]) or m["n"]) if m else None
+                    n += 1
+                    ok = d is not None and (d == ("a", ("self",), depth_attr) or (d[0] == "p" and d[-1] == depth_attr))
+                    ctx.check(ok, f"{pid}.address-field-range", fn.site, f"{cls}.layout.addr", found=tstr(s[2]), required=f"range({depth_attr}): every row is addressable")
+    return n
+
+
+def index_space_agreement(ctx, pid: str, comp, cls: str) -> int:
+    """A list of signals / ports built as `[.. for _ in range(N)]` that is written element by element under a loop
+    `for i in range(M)` (lhs `L[i]`): the loop covers the list, N == M.  A shorter loop leaves the last elements undriven,
+    a shorter list makes the generator fail - or, with negative indices, alias."""
+    from ..logic import lin_equal
+    from ..pm import pmatch
+
+    n = 0
+    seen = set()
+    for ex in comp.configs:
+        for h in ex.of(HwAssign):
+            if h.lhs is None:
+                continue
+            t = h.lhs
+            while t[0] == "a":
+                t = t[1]
+            if t[0] != "i" or t[1][0] != "obj" or t[2][0] != "b":
+                continue
+            lst, b = t[1], t[2]
+            o = ex.obj(lst)
+            if o is None or o.ctor[0] != "lc" or len(o.ctor[3]) != 1:
+                continue
+            mN = pmatch("range(Q_n)", o.ctor[3][0][1])
+            loop = [fr for fr in h.frames if fr[0] == "for" and b in fr[1]]
+            mM = pmatch("range(Q_n)", loop[0][2]) if loop else None
+            if mN is None or mM is None or any(s == ("n", "len") for s in subterms(mM["n"])) or any(s == ("n", "len") for s in subterms(mN["n"])):
+                continue
+            key = (o.site, h.site)
+            if key in seen:
+                continue
+            seen.add(key)
+            n += 1
+            ctx.check(lin_equal(mN["n"], mM["n"]), f"{pid}.index-space", h.site, f"{cls}.{o.name}@{h.site.split(':')[-1]}", found=f"list of range({tstr(mN['n'])}) element(s), written under a loop over range({tstr(mM['n'])})",
+                      required="the loop that writes a per-port list element by element covers exactly the list")
+    return n
+
+
 def register_wire_discipline(ctx, pid: str, comp, cls: str):
     by_decl: dict = {}
     for ex in comp.configs:
